@@ -14,6 +14,7 @@ import (
 	"path/filepath"
 	"reflect"
 	"regexp"
+	"sort"
 	"strings"
 
 	"github.com/samsarahq/thunder/graphql"
@@ -43,6 +44,25 @@ func genCase(cr *vh.Rng) *gqlgen.Case {
 	spec := gqlgen.GenSchema(cr)
 	c := &gqlgen.Case{Spec: spec, Origin: "generated"}
 	c.Modes = []gqlgen.Modes{gqlgen.GenModes(cr, spec), gqlgen.GenModes(cr, spec)}
+	if cr.Chance(50) {
+		// the second assignment without any field run as a batch (plain, Expensive, fallback not batched,
+		// NumParallelInvocations kept): the premise of the exact form of clause (i)
+		keys := make([]string, 0, len(c.Modes[1]))
+		for k := range c.Modes[1] {
+			keys = append(keys, k)
+		}
+		sort.Strings(keys)
+		for _, k := range keys {
+			m := c.Modes[1][k]
+			if m.Kind == "batch" {
+				m.Kind = []string{"plain", "expensive"}[cr.Intn(2)]
+				c.Modes[1][k] = m
+			} else if m.Kind == "fallback" && m.UseBatch {
+				m.UseBatch = false
+				c.Modes[1][k] = m
+			}
+		}
+	}
 	single := cr.Chance(45)
 	pf := []int{0, 5, 8, 12, 20, 30, 40}[cr.Intn(7)]
 	if single {
@@ -150,7 +170,7 @@ func checkError(obs gqlgen.Observed, fs []gqlgen.RefFailure, md gqlgen.Modes, qn
 	}
 	return "wrong-error-path", fmt.Sprintf("got path %v (%q); failures with this cause: %s", obs.Path, obs.Full, js(sameCause))
 pathok:
-	if obs.Class == "err" || obs.Class == "wrapsafe" || obs.Class == "cancelwrap" {
+	if obs.Class == "err" || obs.Class == "wrapsafe" || obs.Class == "cancelwrap" || obs.Class == "cancel" {
 		segs := obs.Path
 		if qname != "" {
 			segs = append([]string{qname}, segs...)
@@ -250,6 +270,20 @@ func main() {
 			}
 			b.SetData(c.Data)
 			schemas = append(schemas, gqlgen.CoqSchema(b.Schema))
+			if failing {
+				// premise of failing_resolver_fails_query_exact: no field of this mode assignment is run as a batch
+				nb := true
+				for _, m := range md {
+					if m.Kind == "batch" || (m.Kind == "fallback" && m.UseBatch) {
+						nb = false
+					}
+				}
+				if nb {
+					run.Hist("failing-run:exact-theorem-premise-holds(no field run as a batch)")
+				} else {
+					run.Hist("failing-run:some-field-run-as-a-batch(path up to the list index)")
+				}
+			}
 			var ch []int
 			if mi < len(c.Choices) {
 				ch = c.Choices[mi]
@@ -353,7 +387,7 @@ func main() {
 		}
 		run.Hist(fmt.Sprintf("needed-failures:%d", min(len(ref.Failures), 4)))
 		for _, f := range ref.Failures {
-			if f.AfterNil && (f.Kind == "err" || f.Kind == "panic" || f.Kind == "wrapsafe" || f.Kind == "cancelwrap" || f.Kind == "badenum") {
+			if f.AfterNil && (f.Kind == "err" || f.Kind == "panic" || f.Kind == "wrapsafe" || f.Kind == "cancelwrap" || f.Kind == "cancel" || f.Kind == "badenum") {
 				run.Hist("unsafe-failure-after-nil-list-entry")
 				break
 			}
